@@ -55,6 +55,17 @@ func runConcCase(c Case, st *Stats, prop string) error {
 			r.Stop()
 		}
 	}()
+	if p.Slow > 0 {
+		// sealed segments of SegmentSize bytes each, copied before the active one (file-id order)
+		for i := 0; i < p.Slow; i++ {
+			val := make([]byte, c.Cfg.Seg-200)
+			if err := dbs[0].Update(func(tx *nutsdb.Tx) error {
+				return tx.Put("fill", []byte(fmt.Sprintf("f%d", i)), val, 0)
+			}); err != nil {
+				return fmt.Errorf("population of the slow-copy case failed: %v", err)
+			}
+		}
+	}
 	newRaceReports() // drain reports of earlier cases
 	if p.NoList {
 		st.Exclude("c15-merge-list-duplication")
@@ -91,6 +102,7 @@ func runConcCase(c Case, st *Stats, prop string) error {
 		if structs {
 			finalList = readList(tx)
 			finalSet = readSet(tx)
+			final["\x00zcur"] = readZCur(tx)
 		}
 		_ = tx.Rollback()
 		if err := checkConc(txRecs, i, structs, p.NoList, final, finalVer, finalList, finalSet, true); err != nil {
@@ -126,6 +138,7 @@ func runConcCase(c Case, st *Stats, prop string) error {
 				r.List = []int{}
 			}
 			r.Set = readSet(tx)
+			r.ZCur = readZCur(tx)
 		}
 		_ = tx.Rollback()
 		h.Close()
@@ -210,6 +223,12 @@ func runConcCase(c Case, st *Stats, prop string) error {
 		if a.Fail != "" {
 			failed++
 		}
+		if a.LateFor != "" {
+			st.Class("late-writers-started-after-the-copy-began", 1)
+		}
+	}
+	if p.Slow > 0 {
+		classes = append(classes, "slow-copy-case")
 	}
 	st.Class("failed-write-transactions", failed)
 	if failed > 0 {
